@@ -139,7 +139,7 @@ class AbstractPerFileMerger:
             is 'success' or 'conflicted', then chunks should be an iterable of
             strings for the new file contents.
         """
-        return ("not applicable", None)
+        return ("not_applicable", None)
 
 
 class PerFileMerger(AbstractPerFileMerger):
